@@ -390,6 +390,8 @@ class CoroReal:
             else:
                 fut.cancel()
             self.env.settle()
+            if self.caller_ctx == 1:
+                self.caller_ctx = _CV.get()
         else:
             raise ValueError(act)
         return {form: self.proj(form) for form in self.FORMS}
